@@ -187,6 +187,12 @@ func init() {
 			fr.it.hostSide = map[*Value]interface{}{}
 			return nil
 		},
+		"verifCrashCopy": func(fr *Frame, a []Value) Value {
+			// process death now; the directory stays where it is (the native twin copies it instead)
+			fr.it.env.applyCrash(false)
+			fr.it.hostSide = map[*Value]interface{}{}
+			return a[0]
+		},
 		"verifClockStep": func(fr *Frame, a []Value) Value {
 			fr.it.env.clockStep(a[0].(bool))
 			return nil
